@@ -52,7 +52,7 @@ def enumerate_programs(tier, only=None, derive_cfg=None):
     for name, cfg in program_slices(tier):
         if only and name not in only:
             continue
-        cp = os.path.join(vlib.BUILD, "prog-%s.json" % name)
+        cp = os.path.join(vlib.TMP, "prog-%s.json" % name)
         json.dump(cfg, open(cp, "w"))
         if derive_cfg:
             r = vlib.run_tlc("MC_Derive", "MC_Derive.cfg", workers=12, env={"VERIF_CFG": cp, "VERIF_DERIVE": derive_cfg}, timeout=3000,
@@ -98,8 +98,8 @@ def decl_record(decl_text):
 
 def adjudicate(records, env, tag):
     """records: list of Trace_Binding records -> (set of BAD indices (1-based), set of TOOL indices, TlcResult)"""
-    tp = os.path.join(vlib.BUILD, "bind-%s.ndjson" % tag)
-    ep = os.path.join(vlib.BUILD, "bind-%s-env.json" % tag)
+    tp = os.path.join(vlib.TMP, "bind-%s.ndjson" % tag)
+    ep = os.path.join(vlib.TMP, "bind-%s-env.json" % tag)
     vlib.write_ndjson(tp, records)
     json.dump(env, open(ep, "w"))
     a = vlib.run_tlc("Trace_Binding", "Trace_Binding.cfg", workers=12, env={"VERIF_TRACE": tp, "VERIF_ENV": ep}, timeout=3000,
